@@ -2,7 +2,6 @@ from array import array
 from typing import Union, List, Dict, Tuple
 
 from bitarray import bitarray
-from bitarray.util import ba2int
 
 
 class Trellis34:
@@ -237,7 +236,10 @@ class Trellis34:
         out: array = array("B")
 
         for i in range(0, len(original), 3):
-            out.append(ba2int(original[i : i + 3], signed=False))
+            # most significant bit first, whatever the endianness of the bitarray
+            out.append(
+                (original[i] << 2) | (original[i + 1] << 1) | original[i + 2]
+            )
         out.append(0)
 
         return out
